@@ -10,6 +10,8 @@ CONSTANTS
   MaxParties = 2
   HistLen = 2
   JwsEmbeds = {TRUE, FALSE}
+  PayClasses = {"pattern"}
+  KeyVars = {"plain"}
   Deviation = "none"
 INVARIANTS HistoryFree HAcceptOnlyIf HRoundTrip HPayloadIntact
 CHECK_DEADLOCK FALSE
